@@ -124,11 +124,15 @@ func (c *scriptConn) Close() error {
 	c.closed = true
 	return nil
 }
-func (c *scriptConn) isClosed() bool                { c.mu.Lock(); defer c.mu.Unlock(); return c.closed }
-func (c *scriptConn) readAll() bool                 { c.mu.Lock(); defer c.mu.Unlock(); return c.consumed == c.totalLocked() }
-func (c *scriptConn) LocalAddr() net.Addr           { return addr("node:7001") }
-func (c *scriptConn) RemoteAddr() net.Addr          { return addr("10.9.8.7:7007") }
-func (c *scriptConn) SetDeadline(time.Time) error   { return nil }
+func (c *scriptConn) isClosed() bool { c.mu.Lock(); defer c.mu.Unlock(); return c.closed }
+func (c *scriptConn) readAll() bool {
+	c.mu.Lock()
+	defer c.mu.Unlock()
+	return c.consumed == c.totalLocked()
+}
+func (c *scriptConn) LocalAddr() net.Addr              { return addr("node:7001") }
+func (c *scriptConn) RemoteAddr() net.Addr             { return addr("10.9.8.7:7007") }
+func (c *scriptConn) SetDeadline(time.Time) error      { return nil }
 func (c *scriptConn) SetReadDeadline(time.Time) error  { return nil }
 func (c *scriptConn) SetWriteDeadline(time.Time) error { return nil }
 func (c *scriptConn) totalLocked() int {
@@ -223,11 +227,11 @@ func (d *duplex) Close() error {
 	d.cond.Broadcast()
 	return nil
 }
-func (d *duplex) LocalAddr() net.Addr                { return addr("node:7001") }
-func (d *duplex) RemoteAddr() net.Addr               { return addr("10.9.8.7:7007") }
-func (d *duplex) SetDeadline(time.Time) error        { return nil }
-func (d *duplex) SetReadDeadline(time.Time) error    { return nil }
-func (d *duplex) SetWriteDeadline(time.Time) error   { return nil }
+func (d *duplex) LocalAddr() net.Addr              { return addr("node:7001") }
+func (d *duplex) RemoteAddr() net.Addr             { return addr("10.9.8.7:7007") }
+func (d *duplex) SetDeadline(time.Time) error      { return nil }
+func (d *duplex) SetReadDeadline(time.Time) error  { return nil }
+func (d *duplex) SetWriteDeadline(time.Time) error { return nil }
 
 // remote side
 func (d *duplex) send(b []byte) {
@@ -238,9 +242,9 @@ func (d *duplex) send(b []byte) {
 	d.mu.Unlock()
 }
 func (d *duplex) failWrites(err error) { d.mu.Lock(); d.writeErr = err; d.mu.Unlock() }
-func (d *duplex) closeRemote() { d.mu.Lock(); d.remoteEOF = true; d.cond.Broadcast(); d.mu.Unlock() }
-func (d *duplex) fireDeadline() { d.mu.Lock(); d.expire = true; d.cond.Broadcast(); d.mu.Unlock() }
-func (d *duplex) closedByNode() bool { d.mu.Lock(); defer d.mu.Unlock(); return d.nodeClosed }
+func (d *duplex) closeRemote()         { d.mu.Lock(); d.remoteEOF = true; d.cond.Broadcast(); d.mu.Unlock() }
+func (d *duplex) fireDeadline()        { d.mu.Lock(); d.expire = true; d.cond.Broadcast(); d.mu.Unlock() }
+func (d *duplex) closedByNode() bool   { d.mu.Lock(); defer d.mu.Unlock(); return d.nodeClosed }
 
 // waitUntil blocks until pred (evaluated under the lock) holds or the node closed the connection;
 // stop aborts the wait (watchdog of the case). It reports whether pred held.
